@@ -698,6 +698,35 @@ def gen_verifier(repo):
         comm_ok = bool(re.search(r"for\s*\(\s*key\s*,\s*value\s*\)\s+in\s*&\s*blinded_cred_secrets\s*\.\s*committed_attributes\s*\{", f[1], re.S)) and \
                   bool(re.search(r"\.\s*r_caps\s*\.\s*get\s*\(\s*key\s*\)\s*\.\s*ok_or_else", f[1], re.S))
     out.append("/-- `_check_blinded_credential_secrets_correctness_proof`: the commitment loop runs over `blinded_cred_secrets.committed_attributes`\n    (every declared commitment needs `m_caps` and `r_caps` entries) -/\ndef blindedLoopOverDeclaredCommitted : Bool := %s\n" % ("true" if comm_ok else "false"))
+    # ---- holder: the pairing equations of _test_witness_signature, in source order
+    f = find_fn(prv, "_test_witness_signature")
+    rows = []
+    if f:
+        body = f[1]
+        for m in re.finditer(r"let\s+(\w+)\s*=\s*Pair::pair2\s*\(", body):
+            close = balanced(body, m.end() - 1, "(", ")")
+            args, depth, cur = [], 0, ""
+            seg = body[m.end():close].rstrip()
+            if seg.endswith(")"):
+                seg = seg[:-1]
+            for ch in seg:
+                if ch in "([{":
+                    depth += 1
+                elif ch in ")]}":
+                    depth -= 1
+                if ch == "," and depth == 0:
+                    args.append(cur)
+                    cur = ""
+                else:
+                    cur += ch
+            if cur.strip():
+                args.append(cur)
+            norm = [re.sub(r"\s+|&|\?|\.as_ref\(\)", "", a) for a in args]
+            c = re.search(r"\bif\s+([^{}]*\b%s\b[^{}]*?)\s*\{\s*return\s+Err" % re.escape(m.group(1)), body[close:], re.S)
+            cond = re.sub(r"\s+|\?", "", c.group(1)).replace(m.group(1), "_") if c else "unchecked"
+            rows.append(norm + [cond])
+    lit = "[" + ",\n   ".join("[" + ", ".join(json.dumps(x) for x in r) + "]" for r in rows) + "]"
+    out.append("/-- `Prover::_test_witness_signature`: every `Pair::pair2(p1, q1, p2, q2)` product in source order with the test that\n    refuses the credential (`_` = the product) -/\ndef witnessSigPairings : List (List String) :=\n  %s\n" % lit)
     out.append(FOOTER)
     return "".join(out)
 
